@@ -8,17 +8,18 @@
 using namespace Avoid; using namespace std;
 static mcx::Ctx ctx;
 static const int S = 20;
-struct PinDef { double px, py, ax, ay; ConnDirFlags side; const char *name; };   // proportional and absolute (for the 20x20 shape) offsets
-static const PinDef DEFS[6] = {{ATTACH_POS_LEFT, ATTACH_POS_CENTRE, ATTACH_POS_MIN_OFFSET, 10, ConnDirLeft, "L"}, {ATTACH_POS_RIGHT, ATTACH_POS_CENTRE, ATTACH_POS_MAX_OFFSET, 10, ConnDirRight, "R"},
+struct PinDef { double px, py, ax, ay; ConnDirFlags side; const char *name; double din = 0; };   // din: added to the configuration's inside offset (two pins may differ in nothing else)   // proportional and absolute (for the 20x20 shape) offsets
+static const PinDef DEFS[7] = {{ATTACH_POS_LEFT, ATTACH_POS_CENTRE, ATTACH_POS_MIN_OFFSET, 10, ConnDirLeft, "L"}, {ATTACH_POS_RIGHT, ATTACH_POS_CENTRE, ATTACH_POS_MAX_OFFSET, 10, ConnDirRight, "R"},
                                {ATTACH_POS_CENTRE, ATTACH_POS_TOP, 10, ATTACH_POS_MIN_OFFSET, ConnDirUp, "T"}, {ATTACH_POS_CENTRE, ATTACH_POS_BOTTOM, 10, ATTACH_POS_MAX_OFFSET, ConnDirDown, "B"},
-                               {ATTACH_POS_RIGHT, 0.25, ATTACH_POS_MAX_OFFSET, 5, ConnDirRight, "R1"}, {ATTACH_POS_RIGHT, 0.75, ATTACH_POS_MAX_OFFSET, 15, ConnDirRight, "R2"}};
+                               {ATTACH_POS_RIGHT, 0.25, ATTACH_POS_MAX_OFFSET, 5, ConnDirRight, "R1"}, {ATTACH_POS_RIGHT, 0.75, ATTACH_POS_MAX_OFFSET, 15, ConnDirRight, "R2"},
+                               {ATTACH_POS_LEFT, ATTACH_POS_CENTRE, ATTACH_POS_MIN_OFFSET, 10, ConnDirLeft, "L+7", 7}};   // the same place and directions as L, 7 further inside
 struct Cfg { bool ortho; double inside; bool proportional; int dirMode; int excl; int mv; int cps; bool toJunction; int heap; bool early = false; int extra = 0; bool costs = false; int cpDirs = 0; };   // cpDirs: 1 checkpoints may only be ARRIVED AT from the left (ConnDirLeft), 2 only be LEFT towards smaller y (libavoid's VertInf::directionFrom calls that ConnDirDown), 3 both   // extra: pins of ANOTHER class on the same shape (1: a ConnDirAll centre pin, 2: directional pins at the middle of all four sides)   // early: the move/resize (and a junction move) is issued BEFORE the first processTransaction   // dirMode 0 automatic(ConnDirNone) 1 explicit side 2 All; excl 0 default 1 forced exclusive 2 forced shared
 static string cfg_str(const Cfg &c) { return mcx::fmt("%s insideOffset=%g %s dirs=%s exclusive=%s then=%s checkpoints=%d far_end=%s heap=%d", c.ortho ? "orthogonal" : "polyline", c.inside, c.proportional ? "proportional" : "absolute", c.dirMode == 0 ? "automatic" : c.dirMode == 1 ? "side" : "all", c.excl == 0 ? "default" : c.excl == 1 ? "forced" : "shared", c.mv == 0 ? "nothing" : c.mv == 1 ? "translate" : c.mv == 2 ? "resize" : c.mv == 3 ? "move-junctions" : c.mv == 4 ? "move-junctions+translate" : c.mv == 5 ? "reattach-to-second-shape+translate-first" : "reattach-to-second-shape+resize-first", c.cps, c.toJunction ? "junction" : "point", c.heap) + (c.early ? " move-before-first-transaction" : "") + (c.extra == 1 ? " +centre pin of another class" : c.extra == 2 ? " +four side pins of another class" : "") + (c.costs ? " +connection costs (50 on every other pin)" : "") + (c.cpDirs ? mcx::fmt(" checkpoint directions#%d", c.cpDirs) : string()); }
 
 static bool onSeg(Point a, Point b, Point p) { return fabs((b.x - a.x) * (p.y - a.y) - (p.x - a.x) * (b.y - a.y)) < 1e-6 && p.x >= min(a.x, b.x) - 1e-6 && p.x <= max(a.x, b.x) + 1e-6 && p.y >= min(a.y, b.y) - 1e-6 && p.y <= max(a.y, b.y) + 1e-6; }
 
 static void run(unsigned pm, int k, const vector<pair<int, int>> &targets, const Cfg &c) {
-    string desc = "pins {"; for (int i = 0; i < 6; i++) if (pm >> i & 1) desc += DEFS[i].name + string(" "); desc += mcx::fmt("} %d connector(s) to", k); for (int i = 0; i < k; i++) desc += mcx::fmt(" (%d,%d)", targets[i].first, targets[i].second); desc += " " + cfg_str(c);
+    string desc = "pins {"; for (int i = 0; i < 7; i++) if (pm >> i & 1) desc += DEFS[i].name + string(" "); desc += mcx::fmt("} %d connector(s) to", k); for (int i = 0; i < k; i++) desc += mcx::fmt(" (%d,%d)", targets[i].first, targets[i].second); desc += " " + cfg_str(c);
     ctx.announce(desc); ctx.count("evaluations");
     vector<string> kc; if (c.inside == 0 && c.dirMode != 2) kc.push_back("pin_on_boundary");
     if (c.cps && c.toJunction) kc.push_back("checkpoints_on_junction_connector");
@@ -32,8 +33,8 @@ static void run(unsigned pm, int k, const vector<pair<int, int>> &targets, const
         Router *r = new Router(c.ortho ? OrthogonalRouting : PolyLineRouting); r->setRoutingParameter(segmentPenalty, c.ortho ? 30 : 0);
         Rectangle rect(Point(1.5 * S, 1.5 * S), Point(2.5 * S, 2.5 * S)); ShapeRef *sh = new ShapeRef(r, rect);
         vector<ShapeConnectionPin *> pins; int npins = 0;
-        for (int i = 0; i < 6; i++) if (pm >> i & 1) { ConnDirFlags d = c.dirMode == 0 ? (ConnDirFlags)ConnDirNone : c.dirMode == 1 ? DEFS[i].side : (ConnDirFlags)ConnDirAll;
-            ShapeConnectionPin *p = c.proportional ? new ShapeConnectionPin(sh, 1, DEFS[i].px, DEFS[i].py, true, c.inside, d) : new ShapeConnectionPin(sh, 1, DEFS[i].ax, DEFS[i].ay, false, c.inside, d);
+        for (int i = 0; i < 7; i++) if (pm >> i & 1) { ConnDirFlags d = c.dirMode == 0 ? (ConnDirFlags)ConnDirNone : c.dirMode == 1 ? DEFS[i].side : (ConnDirFlags)ConnDirAll;
+            ShapeConnectionPin *p = c.proportional ? new ShapeConnectionPin(sh, 1, DEFS[i].px, DEFS[i].py, true, c.inside + DEFS[i].din, d) : new ShapeConnectionPin(sh, 1, DEFS[i].ax, DEFS[i].ay, false, c.inside + DEFS[i].din, d);
             if (c.excl == 1) p->setExclusive(true); else if (c.excl == 2) p->setExclusive(false);
             if (c.dirMode == 0 && p->directions() != DEFS[i].side && why.empty()) { why = "automatic pin directions are not out of the side the pin is on"; obs = mcx::fmt("pin %s directions %u", DEFS[i].name, (unsigned)p->directions()); }   // documented default for visDirs
             if (c.costs && (npins % 2 == 0)) p->setConnectionCost(50);
@@ -43,8 +44,8 @@ static void run(unsigned pm, int k, const vector<pair<int, int>> &targets, const
         // a second shape with the same pin set (follow-ups 5/6: the connectors' pin ends are re-attached to IT in the transaction that also moves / resizes the first shape)
         ShapeRef *sh2 = nullptr; vector<ShapeConnectionPin *> pins2;
         if (c.mv >= 5) { Rectangle rect2(Point(5.5 * S, 1.5 * S), Point(6.5 * S, 2.5 * S)); sh2 = new ShapeRef(r, rect2);
-            for (int i = 0; i < 6; i++) if (pm >> i & 1) { ConnDirFlags d = c.dirMode == 0 ? (ConnDirFlags)ConnDirNone : c.dirMode == 1 ? DEFS[i].side : (ConnDirFlags)ConnDirAll;
-                ShapeConnectionPin *p = c.proportional ? new ShapeConnectionPin(sh2, 1, DEFS[i].px, DEFS[i].py, true, c.inside, d) : new ShapeConnectionPin(sh2, 1, DEFS[i].ax, DEFS[i].ay, false, c.inside, d);
+            for (int i = 0; i < 7; i++) if (pm >> i & 1) { ConnDirFlags d = c.dirMode == 0 ? (ConnDirFlags)ConnDirNone : c.dirMode == 1 ? DEFS[i].side : (ConnDirFlags)ConnDirAll;
+                ShapeConnectionPin *p = c.proportional ? new ShapeConnectionPin(sh2, 1, DEFS[i].px, DEFS[i].py, true, c.inside + DEFS[i].din, d) : new ShapeConnectionPin(sh2, 1, DEFS[i].ax, DEFS[i].ay, false, c.inside + DEFS[i].din, d);
                 if (c.excl == 1) p->setExclusive(true); else if (c.excl == 2) p->setExclusive(false); pins2.push_back(p); } }
         bool allExclusive = true; for (auto p : pins) if (!p->isExclusive()) allExclusive = false;
         vector<ConnRef *> cs; vector<JunctionRef *> js; vector<vector<Point>> cpl(k);
@@ -145,7 +146,7 @@ int main(int argc, char **argv) {
     bool TH = ctx.thorough();
     run(15, 2, {{0, 0}, {4, 4}}, {true, 3, true, 1, 0, 1, 0, false, 0});   // warm-up in system-malloc mode
     vector<unsigned> all; for (unsigned pm = 1; pm < 16; pm++) all.push_back(pm); all.push_back(48); all.push_back(48 + 1);
-    vector<unsigned> few = {1, 3, 5, 10, 15, 48};
+    vector<unsigned> few = {1, 3, 5, 10, 15, 48, 65, 67};   // 65, 67: with a second pin that differs from L only in its inside offset
     transform_phase();
     for (int ortho = 0; ortho < 2; ortho++) for (int heap = 1; heap <= 2; heap++) {
         for (int mv = 0; mv < 3; mv++) phase({(bool)ortho, 3, true, 1, 0, mv, 0, false, heap}, all, 2, 1);
